@@ -1,13 +1,13 @@
 #!/bin/bash
-# usage: seedall.sh <dir-with-Cxx/changeN/patch.diff ...>  -- summary line per seeded change
-dir=${1:-/tmp/seed/out}
-for p in $(ls -d $dir/C*/change* 2>/dev/null | sort); do
-  id=$(basename $(dirname $p)); ch=$(basename $p)
-  [ -f $p/patch.diff ] || continue
-  out=$(/verif/scripts/seedrun.sh $p/patch.diff 2>&1)
+# usage: seedall.sh [dir]  -- dir holds <name>/patch.diff (default /verif/seeded); one summary line per seeded change.
+# Each patch is applied to /repo, every check is run, and /repo is restored straight afterwards.
+dir=${1:-/verif/seeded}
+for p in $(find $dir -name patch.diff | sort); do
+  d=$(dirname $p); name=${d#$dir/}
+  out=$(/verif/scripts/seedrun.sh $p 2>&1)
   viol=$(echo "$out" | grep -E "^C[0-9]+ tier" | grep -v "violated=0" | awk '{print $1}' | tr '\n' ' ')
   und=$(echo "$out" | grep -E "^C[0-9]+ tier" | grep "violated=0" | grep -v "undecided=0" | awk '{print $1}' | tr '\n' ' ')
   err=$(echo "$out" | grep -E "PATCH DOES NOT APPLY|DOES NOT BUILD|not clean")
   rules=$(echo "$out" | grep "^  violated" | sed 's/.*rule=\([A-Z0-9.]*\).*/\1/' | sort -u | tr '\n' ' ')
-  echo "$id/$ch: VIOL[$viol] rules[$rules] UNDEC[$und] $err"
+  echo "$name: VIOL[$viol] rules[$rules] UNDEC[$und] $err"
 done
